@@ -419,11 +419,12 @@ func (bs *BinarySpray) ReportFailure(bp BundleDescriptor, sender cla.Convergence
 
 	verifPoint("BinarySpray.ReportFailure:read")
 
-	binarySprayBlock.SetCopies(metadata.remainingCopies + binarySprayBlock.RemainingCopies())
-
+	// The copies which SenderForBundle handed over to this peer, as written into the bundle's metadata block, are
+	// taken back. Peers not selected by SenderForBundle, e.g., a failed direct delivery, have nothing to return.
 	for i := 0; i < len(metadata.sent); i++ {
 		if metadata.sent[i] == sender.GetPeerEndpointID() {
 			metadata.sent = append(metadata.sent[:i], metadata.sent[i+1:]...)
+			metadata.remainingCopies = metadata.remainingCopies + binarySprayBlock.RemainingCopies()
 			break
 		}
 	}
